@@ -603,7 +603,7 @@ class Evaluator:
 
     def _py(self, r) -> AV:
         import decimal as _d
-        if isinstance(r, (_d.Decimal, _d.Context)):
+        if isinstance(r, (_d.Decimal, _d.Context, bytes)):
             return AV('other', val=('py', r))
         return self._from_python(r)
 
@@ -743,7 +743,7 @@ class Evaluator:
         try:
             rx = _re.compile(pat, flags)
         except _re.error as e_:
-            raise AbsRaise('re.error', str(e_))
+            raise AbsRaise('error', str(e_))
         subj = args[-1] if how != 'sub' else (args[1] if len(args) > 1 else None)
         if subj is None:
             raise Unknown('regex call without a subject')
@@ -982,9 +982,12 @@ class Evaluator:
             self.depth -= 1
 
     def call_value(self, f: AV, args: list) -> AV:
-        if f.kind == 'other' and isinstance(f.val, tuple) and f.val[0] == 'name' and f.val[1] in ('len', 'str', 'int', 'float', 'bool'):
-            call = ast.Call(func=ast.Name(id=f.val[1], ctx=ast.Load()), args=[ast.Name(id='_arg0', ctx=ast.Load())], keywords=[])
-            return self.call(call, {'_arg0': args[0]})
+        if f.kind == 'other' and isinstance(f.val, tuple) and f.val[0] == 'name' and f.val[1] in (
+                'len', 'str', 'int', 'float', 'bool', 'min', 'max', 'sum', 'any', 'all', 'sorted', 'abs', 'list', 'tuple', 'set', 'repr', 'round',
+                'reversed', 'enumerate', 'ord', 'chr'):
+            call = ast.Call(func=ast.Name(id=f.val[1], ctx=ast.Load()), args=[ast.Name(id=f'_arg{i}', ctx=ast.Load()) for i in range(len(args))],
+                            keywords=[])
+            return self.call(call, {f'_arg{i}': a for i, a in enumerate(args)})
         if f.kind == 'func' and isinstance(f.val, tuple):
             if f.val[0] == 'closure':
                 return self.call_closure(f.val, args)
@@ -1101,7 +1104,8 @@ class Evaluator:
             if txt in getattr(self, 'text_attrs', {}):
                 return self.text_attrs[txt]
             cc = getattr(self, 'class_consts', {})
-            if isinstance(node.value, ast.Name) and node.value.id in ('self', 'cls') and node.attr in cc:
+            if isinstance(node.value, ast.Name) and node.value.id in ('self', 'cls') and node.attr in cc and \
+                    not (node.value.id in env and env[node.value.id].kind == 'obj' and node.attr in self.obj_attrs(env[node.value.id])):
                 try:
                     return self.ev(cc[node.attr], {})            # a class-level constant of the copy
                 except Unknown:
@@ -1441,6 +1445,9 @@ class Evaluator:
         if name is not None and name in env and env[name].kind == 'other' and isinstance(env[name].val, tuple) and \
                 env[name].val[0] == 'name' and env[name].val[1] in ('int', 'float', 'str', 'bool'):
             name = env[name].val[1]                       # a builtin passed around as a value
+        elif name is not None and name in env and env[name].kind == 'other' and isinstance(env[name].val, tuple) and \
+                env[name].val[0] == 'name' and not node.keywords:
+            return self.call_value(env[name], self._args(node, env))
         if name is not None and name in env and env[name].kind == 'other' and isinstance(env[name].val, tuple) and \
                 env[name].val[0] == 'localclass':
             body_ = [b for b in env[name].val[2].body if not isinstance(b, ast.Pass) and
@@ -1913,6 +1920,11 @@ class Evaluator:
                 for fl in rest_[nflag_:] + [k.value for k in node.keywords if k.arg == 'flags']:
                     flags_ |= self._regex_flags(fl)
                 if txt == 're.compile':
+                    import re as _re
+                    try:
+                        _re.compile(pat_, flags_)
+                    except _re.error as e_:
+                        raise AbsRaise('error', str(e_))
                     return AV('regex', val=('regex', pat_, flags_))
                 return self._regex_call(txt[3:], pat_, flags_, [self.ev(x, env) for x in rest_[:nflag_]])
             recv = recv_of()
@@ -1964,7 +1976,7 @@ class Evaluator:
                     and not node.args:
                 return const_av(getattr(recv.val, f.attr)())
             if recv.kind == 'str' and isinstance(recv.val, str) and not node.keywords and f.attr in (
-                    'find', 'rfind', 'index', 'rindex', 'count', 'replace', 'startswith', 'endswith', 'title', 'capitalize', 'swapcase', 'casefold',
+                    'isascii', 'isprintable', 'find', 'rfind', 'index', 'rindex', 'count', 'replace', 'startswith', 'endswith', 'title', 'capitalize', 'swapcase', 'casefold',
                     'zfill', 'ljust', 'rjust', 'center', 'isalnum', 'isspace', 'isdecimal', 'isidentifier', 'istitle', 'removeprefix',
                     'removesuffix', 'partition', 'rpartition', 'splitlines', 'rsplit', 'strip', 'lstrip', 'rstrip', 'expandtabs'):
                 args_ = self._args(node, env)
@@ -1975,6 +1987,12 @@ class Evaluator:
                         return self._from_python(getattr(recv.val, f.attr)(*plain_))
                     except (ValueError, TypeError) as e_:
                         raise AbsRaise(type(e_).__name__, str(e_))
+            if recv.kind == 'str' and isinstance(recv.val, str) and f.attr == 'encode':
+                try:
+                    return self._py(recv.val.encode(*[self._deep_python(x) for x in self._args(node, env)],
+                                                    **{k.arg: self._deep_python(self.ev(k.value, env)) for k in node.keywords if k.arg}))
+                except (LookupError, UnicodeError, TypeError) as e_:
+                    raise AbsRaise(type(e_).__name__, str(e_))
             if recv.kind == 'str' and isinstance(recv.val, str) and f.attr in ('format', 'format_map'):
                 try:
                     pa_ = [self._deep_python(x) for x in self._args(node, env)]
@@ -2004,7 +2022,10 @@ class Evaluator:
                     if vs_[0].kind != 'str':
                         raise AbsRaise('TypeError', 'expected string or bytes-like object')
                     raise Unknown('a regex call on values without a concrete carrier')
-                rx_ = _re.compile(recv.val[1], recv.val[2])
+                try:
+                    rx_ = _re.compile(recv.val[1], recv.val[2])
+                except _re.error as e_:
+                    raise AbsRaise('error', str(e_))
                 r_ = getattr(rx_, f.attr)(vs_[0].val, *[v_.val for v_ in vs_[1:]])
                 if f.attr == 'findall':
                     return self._from_python(r_)
@@ -2141,6 +2162,12 @@ class Evaluator:
             return r if isinstance(op, ast.Is) else not r
         if isinstance(op, (ast.In, ast.NotIn)):
             b = self.unbox(b)
+            if b.kind == 'str' and isinstance(b.val, str):
+                if a.kind != 'str':
+                    raise AbsRaise('TypeError', "'in <string>' requires string as left operand")
+                if not isinstance(a.val, str):
+                    raise Unknown('membership of a text without a concrete carrier')
+                return (a.val in b.val) if isinstance(op, ast.In) else (a.val not in b.val)
             if b.items is None:
                 raise Unknown('membership in an unknown container')
             r = False
